@@ -102,7 +102,8 @@ UNKNOWN_SHAPES = [
 
 
 def describe(spec):
-    return "%s[%s v%d #%d]" % (spec["wrap"], spec["kind"], spec["v"], spec["how"])
+    return "%s[%s v%d #%d%s]" % (spec["wrap"], spec["kind"], spec["v"], spec["how"],
+                                 "" if spec.get("nm") is None else " near-miss field %d" % spec["nm"])
 
 
 def build(spec, seed):
@@ -118,7 +119,15 @@ def build(spec, seed):
     if wrap == "UnknownURI":
         return uri.from_string(b"x-tahoe-crazy://%d" % v)
     k = L.KINDS[kind]
-    cap = make_uri(kind, fields_for(L.KINDS[DERIVED_FROM[kind]].layout if how == 2 else k.layout, v, seed), how)
+    fields = fields_for(L.KINDS[DERIVED_FROM[kind]].layout if how == 2 else k.layout, v, seed)
+    if spec.get("nm") is not None:
+        # NEAR MISS: the capability of value v with exactly ONE field taken from value v+1 (same key
+        # but another hash / k / N / size, or same hash but another key): a different capability string
+        j, alt = spec["nm"], fields_for(k.layout, v + 1, seed)
+        fields = list(fields)
+        fields[j] = alt[j] if alt[j] != fields[j] else fields[j] + 1
+        fields = tuple(fields)
+    cap = make_uri(kind, fields, how)
     if wrap == "uri":
         return cap
     if wrap == "file":
@@ -156,6 +165,17 @@ def specs(nvalues):
             for name in ("SSK-Verifier", "MDMF-Verifier", "DIR2-Verifier"):
                 out.append({"wrap": "UnknownNode", "kind": name, "v": v, "how": how})
             out.append({"wrap": "UnknownURI", "kind": "-", "v": v, "how": how})
+        if v == 0:
+            for name in L.KIND_NAMES:
+                lay = L.KINDS[name].layout
+                if lay == "lit":
+                    continue
+                for j in range(5 if lay == "chk" else 2):
+                    out.append({"wrap": "uri", "kind": name, "v": v, "how": 0, "nm": j})
+                    if name in FILE_NODE_KINDS:
+                        out.append({"wrap": "file", "kind": name, "v": v, "how": 0, "nm": j})
+                    if name in DIR_NODE_KINDS:
+                        out.append({"wrap": "dir", "kind": name, "v": v, "how": 0, "nm": j})
         # derived forms: the read-cap / verify-cap OF the write-/read-cap object with the same value index
         for name in DERIVED_FROM:
             if name in L.KIND_NAMES:
@@ -256,6 +276,6 @@ def run(tier, seed):
 MANIFEST = {
     "engine": "E",
     "technique": "exhaustive enumeration of all ordered pairs of capability and node objects over a small value alphabet, compared with the identity relation on capability strings",
-    "text": "Every capability kind with several key values is built twice independently, bare and wrapped in every node class (immutable, literal, mutable, directory, unknown); every ordered pair is compared with ==, != and hash() on the real classes and the results are checked against equality of the capability strings. The universe also holds DERIVED forms: the read-cap / verify-cap of the write-/read-cap object with the same value index, as URI, file node and directory node.",
+    "text": "Every capability kind with several key values is built twice independently, bare and wrapped in every node class (immutable, literal, mutable, directory, unknown); every ordered pair is compared with ==, != and hash() on the real classes and the results are checked against equality of the capability strings. The universe also holds NEAR MISSES (the value-0 capability of every kind with exactly one field - key, hash, k, N or size - taken from another value, bare and as file/directory node) and DERIVED forms: the read-cap / verify-cap of the write-/read-cap object with the same value index, as URI, file node and directory node.",
     "note": "Small scope (2-4 values per kind). CiphertextFileNode and UnknownURI compare by object identity; the statement does not cover them (no capability string accessor / not a known capability), they are counted only.",
 }
